@@ -13,4 +13,5 @@ EXES = [
     {"name": "bulk", "sources": ["harness/bulk.cpp"]},
     {"name": "streams", "sources": ["harness/streams.cpp"]},
     {"name": "timers", "sources": ["harness/timers.cpp"]},
+    {"name": "anyw", "sources": ["harness/anyw.cpp"]},
 ]
